@@ -13,6 +13,11 @@ Inductive key_expr :=
 | KAnyName    (* sdk.MsgTypeURL(msg), msg : *codectypes.Any  => always "/google.protobuf.Any" *)
 | KTypeUrl.   (* msg.TypeUrl                                  => the wrapped message's URL    *)
 
+(* what checkProposalMsgs compares between consecutive proposal messages *)
+Inductive cmp_expr :=
+| CmpTypeURL   (* sdk.MsgTypeURL(pMsg) of the unpacked message, both in the comparison and in the carry *)
+| CmpOther.    (* anything else (e.g. the Go type name, which is the same for every module's MsgUpdateParams) *)
+
 (* abci.go, callback of the active-queue walk, top-level statements in source order *)
 Inductive eb_step := EB_Tally | EB_Payout | EB_Dequeue | EB_Outcome | EB_SetTally | EB_Save.
 (* deposit.go AddDeposit, top-level statements after the validation prelude, in source order *)
@@ -48,7 +53,10 @@ Record gov_shape := {
   sh_egf_key : key_expr;   (* GetMinDepositAmountFromProposalMsgs *)
   sh_type_key : key_expr;  (* getProposalMsgType *)
   (* --- Tally --- *)
-  sh_tally_checks : list tally_check }.
+  sh_tally_checks : list tally_check;
+  (* --- SubmitProposal: checkProposalMsgs --- *)
+  sh_mixed_compare : cmp_expr;
+  sh_mixed_fold : bool (* compared with strings.EqualFold *) }.
 
 (* ------------------------------------------------------------------ the shape M_Gov transcribes *)
 Definition model_eb_order : list eb_step := [EB_Tally; EB_Payout; EB_Dequeue; EB_Outcome; EB_SetTally; EB_Save].
@@ -125,6 +133,15 @@ Definition deposited_sh (sh : gov_shape) (P : params) (kf : keyfun) (cust : list
        p_submit := p_submit q; p_dep_end := p_dep_end q; p_vstart := p_vstart q; p_vend := p_vend q;
        p_votes := p_votes q; p_tally := p_tally q; p_act_total := p_act_total q; p_act_req := p_act_req q;
        p_act_period := p_act_period q; p_quorum_used := p_quorum_used q |}.
+
+(* ------------------------------------------------------------------ the single-type check *)
+(* M_Gov.check_msgs compares message type ids (= type URLs up to case).  If the code compares
+   something else nothing is claimed about which mixes it refuses. *)
+Definition check_msgs_sh (sh : gov_shape) (ms : list msg) : bool :=
+  match sh_mixed_compare sh with
+  | CmpTypeURL => if sh_mixed_fold sh then check_msgs ms else check_msgs ms
+  | CmpOther => true
+  end.
 
 (* ------------------------------------------------------------------ the lookup key *)
 Definition kf_of_shape (sh : gov_shape) : keyfun :=
